@@ -1,3 +1,257 @@
-import StirVerif.C02.Model
+/-
+C02 — "Projection data are one coherent array across access paths, layouts and files".
+Property theorems over the model of `Model.lean` (transcription of `ProjDataFromStream::get_offset`,
+`ProjDataInMemory::get_index` and of the seek/contiguous-run pattern of every get_*/set_*).
+All statements are for every geometry (any number of segments with any, unequal, axial sizes, any view /
+tangential / TOF ranges), both storage orders, every permutation of the segment sequence, every element size
+and stream offset, and every history of writes — no bounds.
+
+Hypotheses: `Layout.WF` (segment sequence = a permutation of the segment range, TOF sequence of the TOF range,
+non-negative sizes, `offset_3d_data` = one complete data set — which `C02_offset3d_is_one_data_set` shows is what
+`activate_TOF` computes) and `Layout.Pos` (no empty dimension); both hold of every layout STIR constructs
+(`example`s below).
+-/
+import StirVerif.C02.ProofsRefine
+
 namespace StirVerif.C02
+
+/-! ## the offset map -/
+
+/-- "a single array indexed by (segment, axial position, view, tangential position, TOF bin)":
+    two in-range bins with the same stream offset are the same bin — both storage orders, any segment
+    permutation, unequal axial sizes, TOF or not. -/
+theorem C02_offset_injective (l : Layout) (h : l.WF) (b1 b2 : Bin) (r1 : InRange l b1) (r2 : InRange l b2)
+    (e : offsetOf l b1 = offsetOf l b2) : b1 = b2 := by
+  rw [offsetOf_ok r1, offsetOf_ok r2] at e
+  exact rawOffset_inj h r1 r2 (Except.ok.inj e)
+
+/-- every in-range bin is accepted and lands inside the store, on an element boundary:
+    `offset ≤ off(b) < offset + total·size`, `off(b) ≡ offset (mod size)`. -/
+theorem C02_offset_in_range (l : Layout) (h : l.WF) (b : Bin) (r : InRange l b) :
+    ∃ k : Int, 0 ≤ k ∧ k < totalSlots l ∧ offsetOf l b = .ok (l.offset + k * l.elemSize) :=
+  ⟨slot l b, slot_nonneg h r, slot_lt_total h r, by rw [offsetOf_ok r, rawOffset_eq_slot h]⟩
+
+/-- `ProjDataInMemory::get_index` is `get_offset` for element size 1, stream offset 0 and the
+    Segment_AxialPos_View_TangPos order (same checks, same missing checks): all theorems apply to it. -/
+theorem C02_in_memory_same (l : Layout) (b : Bin) : getIndex l b = offsetOf l.inMemory b :=
+  getIndex_eq_offsetOf l b
+
+/-- what `activate_TOF` / the `ProjDataInMemory` constructor store in `offset_3d_data` is the size of one complete
+    non-TOF data set, whatever the order of the segment sequence (the `off3d` field of `Layout.WF`). -/
+theorem C02_offset3d_is_one_data_set (l : Layout) (hn : l.segSeq.Nodup)
+    (hm : ∀ s, s ∈ l.segSeq ↔ (l.minSeg ≤ s ∧ s ≤ l.maxSeg)) :
+    stdOffset3d l = totalAx l * (l.numViews * l.numTang) * l.elemSize :=
+  stdOffset3d_eq hn hm
+
+/-! ## access paths -/
+
+/-- "a value written through any access path …": for an in-range request through any path (single bin, viewgram,
+    sinogram, segment by sinogram / by view — including the conversion when the storage order does not match —,
+    related viewgrams, `fill`, `fill_from`), the addresses the code seeks to and runs over are exactly the offsets of
+    the bins of that path, each once, in container element order. -/
+theorem C02_path_addresses {α : Type} (l : Layout) (p : l.Pos) (op : Op α) (hv : op.Valid l) :
+    op.addrs l = .ok ((op.bins l).map (rawOffset l)) ∧ ∀ b ∈ op.bins l, InRange l b :=
+  ⟨Op.addrs_eq p op hv, Op.bins_inRange p op hv⟩
+
+/-- contiguity justifying the single `write_data`/`read_data` call: a tangential row is contiguous in both orders … -/
+theorem C02_contiguous_row (l : Layout) (seg view ax tof : Int) :
+    (rowBins l seg view ax tof).map (rawOffset l)
+      = block (rawOffset l ⟨seg, view, ax, l.minTang, tof⟩) l.elemSize l.T :=
+  rowBins_map l seg view ax tof
+
+/-- … a whole viewgram is one contiguous run in the Segment_View_AxialPos_TangPos order … -/
+theorem C02_contiguous_viewgram (l : Layout) (p : l.Pos) (ho : l.order = .svat) (seg view tof : Int)
+    (hs : SegOK l seg) (hv : ViewOK l view) (hk : TofOK l tof) :
+    (binsViewgram l seg view tof).map (rawOffset l)
+      = block (rawOffset l ⟨seg, view, l.minAx seg, l.minTang, tof⟩) l.elemSize (l.A seg * l.T) := by
+  have h := viewgram_addrs p hs hv hk
+  unfold addrsViewgram at h
+  simp only [ho] at h
+  rw [offsetOf_ok (first_in_range p hs hv (ax_first p hs) hk), ok_bind] at h
+  exact (Except.ok.inj h).symm
+
+/-- … a whole sinogram in the Segment_AxialPos_View_TangPos order … -/
+theorem C02_contiguous_sinogram (l : Layout) (p : l.Pos) (ho : l.order = .savt) (seg ax tof : Int)
+    (hs : SegOK l seg) (ha : AxOK l seg ax) (hk : TofOK l tof) :
+    (binsSinogram l seg ax tof).map (rawOffset l)
+      = block (rawOffset l ⟨seg, l.minView, ax, l.minTang, tof⟩) l.elemSize (l.V * l.T) := by
+  have h := sinogram_addrs p hs ha hk
+  unfold addrsSinogram at h
+  simp only [ho] at h
+  rw [offsetOf_ok (first_in_range p hs (view_first p) ha hk), ok_bind] at h
+  exact (Except.ok.inj h).symm
+
+/-- … and a whole segment, in the matching container, in either order. -/
+theorem C02_contiguous_segment (l : Layout) (p : l.Pos) (seg tof : Int) (hs : SegOK l seg) (hk : TofOK l tof) :
+    (l.order = .savt → (binsSegBySino l seg tof).map (rawOffset l)
+        = block (rawOffset l ⟨seg, l.minView, l.minAx seg, l.minTang, tof⟩) l.elemSize (l.A seg * (l.V * l.T))) ∧
+    (l.order = .svat → (binsSegByView l seg tof).map (rawOffset l)
+        = block (rawOffset l ⟨seg, l.minView, l.minAx seg, l.minTang, tof⟩) l.elemSize (l.V * (l.A seg * l.T))) := by
+  have hf := offsetOf_ok (first_in_range p hs (view_first p) (ax_first p hs) hk)
+  constructor
+  · intro ho
+    have h := segBySino_addrs p hs hk
+    unfold addrsSegBySino at h
+    rw [hf, ok_bind] at h
+    simp only [ho] at h
+    exact (Except.ok.inj h).symm
+  · intro ho
+    have h := segByView_addrs p hs hk
+    unfold addrsSegByView at h
+    rw [hf, ok_bind] at h
+    simp only [ho] at h
+    exact (Except.ok.inj h).symm
+
+/-! ## refinement: the stream behaves as the array -/
+
+/-- "… is read back unchanged … and no other bin changes": for ANY list of (bin, value) writes to in-range bins,
+    laid down in the store at the offsets the code computes, reading the address of any in-range bin gives the
+    last value written to that bin, and the previous content if it was never written. -/
+theorem C02_writes_then_read {α : Type} (l : Layout) (h : l.WF) (σ : Store α) (ws : List (Bin × α))
+    (hw : ∀ w ∈ ws, InRange l w.1) (b : Bin) (hb : InRange l b) :
+    writeAddrs σ (ws.map fun w => (rawOffset l w.1, w.2)) (rawOffset l b)
+      = (lastWrite ws b).getD (σ (rawOffset l b)) := by
+  have r0 : Refines l σ (fun c => σ (rawOffset l c)) := fun _ _ => rfl
+  have := refines_writes h ws r0 hw b hb
+  rw [this, writeBins_apply]
+
+/-- bins that no write names keep their value -/
+theorem C02_untouched_bins_keep_value {α : Type} (l : Layout) (h : l.WF) (σ : Store α) (ws : List (Bin × α))
+    (hw : ∀ w ∈ ws, InRange l w.1) (b : Bin) (hb : InRange l b) (hn : ∀ w ∈ ws, w.1 ≠ b) :
+    writeAddrs σ (ws.map fun w => (rawOffset l w.1, w.2)) (rawOffset l b) = σ (rawOffset l b) := by
+  rw [C02_writes_then_read l h σ ws hw b hb, lastWrite_none_of_not_mem ws b hn]
+  rfl
+
+/-- "arbitrary interleavings of write operations through different access paths": after any history of in-range
+    requests through all paths (executed on the store exactly as the code addresses it), the store still holds,
+    at the offset of every in-range bin, what the abstract array (reference map) holds … -/
+theorem C02_history_refines {α : Type} (l : Layout) (h : l.WF) (p : l.Pos) (ops : List (Op α))
+    (σ : Store α) (m : Spec α) (r : Refines l σ m) (hv : ∀ op ∈ ops, op.Valid l) :
+    Refines l (ops.foldl (stepStore l) σ) (ops.foldl (stepSpec l) m) :=
+  refines_history h p ops r hv
+
+/-- … so that reading through ANY path afterwards returns the abstract array's values for the bins of that path. -/
+theorem C02_read_any_path {α : Type} (l : Layout) (h : l.WF) (p : l.Pos) (ops : List (Op α))
+    (σ : Store α) (m : Spec α) (r : Refines l σ m) (hv : ∀ op ∈ ops, op.Valid l) (rd : Op α) (hr : rd.Valid l) :
+    readPath (ops.foldl (stepStore l) σ) (rd.addrs l) = .ok ((rd.bins l).map (ops.foldl (stepSpec l) m)) :=
+  read_refines p (refines_history h p ops r hv) rd hr
+
+/-! ## requests outside the index ranges -/
+
+/-- "Requests outside the index ranges are reported as errors": PARTIAL — true of the pinned source for the segment,
+    the axial position and the TOF index only (the three checks `get_offset` / `get_index` contain). -/
+theorem C02_range_errors_partial (l : Layout) (b : Bin)
+    (hb : ¬ SegOK l b.seg ∨ ¬ AxOK l b.seg b.ax ∨ ¬ TofOK l b.tof) : ∃ e, offsetOf l b = .error e := by
+  unfold offsetOf SegOK AxOK TofOK at *
+  by_cases h1 : l.minSeg ≤ b.seg ∧ b.seg ≤ l.maxSeg
+  · by_cases h2 : l.minAx b.seg ≤ b.ax ∧ b.ax ≤ l.maxAx b.seg
+    · have h3 : ¬ (l.minTof ≤ b.tof ∧ b.tof ≤ l.maxTof) := by tauto
+      exact ⟨.tofRange, by simp [h1, h2, h3]⟩
+    · exact ⟨.axRange, by simp [h1, h2]⟩
+  · exact ⟨.segRange, by simp [h1]⟩
+
+/-- the full clause: every request that is not in range is an error -/
+def RangeErrorsFull (l : Layout) : Prop := ∀ b, ¬ InRange l b → ∃ e, offsetOf l b = .error e
+
+/-- the full clause holds once view and tangential position are checked too (the two flags the harness reads off
+    the implementation) … -/
+theorem C02_range_errors_checked (l : Layout) (hv : l.checkView = true) (ht : l.checkTang = true) :
+    RangeErrorsFull l := by
+  intro b hb
+  by_cases h1 : l.minSeg ≤ b.seg ∧ b.seg ≤ l.maxSeg
+  · by_cases h2 : l.minAx b.seg ≤ b.ax ∧ b.ax ≤ l.maxAx b.seg
+    · by_cases h3 : l.minTof ≤ b.tof ∧ b.tof ≤ l.maxTof
+      · by_cases h4 : l.minView ≤ b.view ∧ b.view ≤ l.maxView
+        · have h5 : ¬ (l.minTang ≤ b.tang ∧ b.tang ≤ l.maxTang) := fun h5 => hb ⟨h1, h2, h4, h5, h3⟩
+          exact ⟨.tangRange, by simp [offsetOf, h1, h2, h3, h4, h5, hv, ht]⟩
+        · exact ⟨.viewRange, by simp [offsetOf, h1, h2, h3, h4, hv]⟩
+      · exact C02_range_errors_partial l b (Or.inr (Or.inr h3))
+    · exact C02_range_errors_partial l b (Or.inr (Or.inl h2))
+  · exact C02_range_errors_partial l b (Or.inl h1)
+
+/-- a small concrete layout: segments -1..1 stored in the order 1, -1, 0 with 2, 2, 3 axial positions,
+    2 views, 3 tangential positions -1..1, 3 TOF bins, 4-byte elements at stream offset 12 -/
+def exLayout (o : Order) (cv ct : Bool) : Layout :=
+  { segSeq := [1, -1, 0], tofSeq := [-1, 0, 1], minSeg := -1, maxSeg := 1,
+    minAx := fun _ => 0, numAx := fun s => if s = 0 then 3 else 2,
+    minView := 0, numViews := 2, minTang := -1, numTang := 3, minTof := -1, maxTof := 1, numTof := 3,
+    order := o, elemSize := 4, offset := 12, offset3d := 7 * (2 * 3) * 4, checkView := cv, checkTang := ct }
+
+/-- … and FAILS for the pinned source (no view / tangential check): on the small layout above, the request
+    (segment 0, view 2 = max_view+1, axial 0) is accepted and has the offset of the in-range bin
+    (segment 0, view 0, axial 1): reading it returns, writing it overwrites, another bin.  Same for the tangential
+    position 2 = max+1, which lands on the first bin of the next view. -/
+theorem C02_view_out_of_range_aliases_fails :
+    ¬ RangeErrorsFull (exLayout .savt false false) ∧
+    offsetOf (exLayout .savt false false) ⟨0, 2, 0, -1, 0⟩ = offsetOf (exLayout .savt false false) ⟨0, 0, 1, -1, 0⟩ ∧
+    offsetOf (exLayout .savt false false) ⟨0, 2, 0, -1, 0⟩ = .ok 300 ∧
+    offsetOf (exLayout .svat false false) ⟨0, 0, 0, 2, 0⟩ = offsetOf (exLayout .svat false false) ⟨0, 0, 1, -1, 0⟩ ∧
+    offsetOf (exLayout .svat false false) ⟨0, 0, 0, 2, 0⟩ = .ok 288 := by
+  refine ⟨?_, by decide, by decide, by decide, by decide⟩
+  intro h
+  obtain ⟨e, he⟩ := h ⟨0, 2, 0, -1, 0⟩ (fun r => by have := r.view; simp [exLayout, Layout.maxView] at this)
+  have : offsetOf (exLayout .savt false false) ⟨0, 2, 0, -1, 0⟩ = .ok 300 := by decide
+  rw [this] at he
+  cases he
+
+/-- the hypothesis "every segment of the range occurs in the segment sequence" is needed: `std::find` returns
+    `size()` for a missing segment, so with the sequence [0] for the range -1..1 the (accepted) segments -1 and 1
+    share their offsets. -/
+theorem C02_missing_segment_aliases_fails :
+    offsetOf { exLayout .savt false false with segSeq := [0] } ⟨1, 0, 0, -1, 0⟩
+      = offsetOf { exLayout .savt false false with segSeq := [0] } ⟨-1, 0, 0, -1, 0⟩ := by decide
+
+/-! ## flush -/
+
+/-- "written values are visible … as soon as each write call returns" (class documentation: every set_* flushes):
+    PARTIAL, about the model's table of which `set_*` end with `sino_stream->flush()` — all but `set_bin_value`
+    (whether the bytes reach a second reader is runtime behaviour, checked by the harness only). -/
+theorem C02_flush_after_every_write_partial (k : WriteKind) (hk : k ≠ .bin) : flushes k = true := by
+  cases k <;> simp_all [flushes]
+
+/-- `set_bin_value` has no `flush()` in the pinned source -/
+theorem C02_flush_set_bin_value_fails : flushes .bin = false := rfl
+
+/-! ## non-vacuity -/
+
+theorem exLayout_WF (o : Order) (cv ct : Bool) : (exLayout o cv ct).WF where
+  segNodup := by simp [exLayout]
+  segMem := by intro s; simp [exLayout]; omega
+  tofMem := by intro _ k; simp [exLayout]; omega
+  tofOne := by intro h; exact absurd (by simp [exLayout] : (exLayout o cv ct).numTof > 1) h
+  numAxNonneg := by intro s _; simp only [exLayout]; split <;> omega
+  viewsNonneg := by simp [exLayout]
+  tangNonneg := by simp [exLayout]
+  sizePos := by simp [exLayout]
+  off3d := by intro _; simp [exLayout, totalAx]
+
+theorem exLayout_Pos (o : Order) (cv ct : Bool) : (exLayout o cv ct).Pos where
+  views := by simp [exLayout]
+  tang := by simp [exLayout]
+  ax := by intro s _; simp only [exLayout]; split <;> omega
+
+/-- an in-range bin of the example layout -/
+example : InRange (exLayout .svat false false) ⟨-1, 1, 1, 0, 1⟩ :=
+  ⟨by decide, by decide, by decide, by decide, by decide⟩
+
+/-- `offset_3d_data` of the example layout is what `activate_TOF` computes -/
+example : stdOffset3d (exLayout .savt false false) = (exLayout .savt false false).offset3d := by decide
+
+/-- a valid history through different paths -/
+example : ∀ op ∈ ([.setViewgram 0 1 (-1) [1, 2, 3, 4, 5, 6, 7, 8, 9], .setBin ⟨-1, 1, 1, 0, 1⟩ 5,
+    .setSegBySino 1 0 (List.replicate 12 7), .fill 0, .fillFrom (List.replicate 126 1)] : List (Op Nat)),
+    op.Valid (exLayout .svat false false) := by
+  intro op hop
+  simp only [List.mem_cons, List.not_mem_nil, or_false] at hop
+  rcases hop with rfl | rfl | rfl | rfl | rfl
+  · exact ⟨by decide, by decide, by decide⟩
+  · exact ⟨by decide, by decide, by decide, by decide, by decide⟩
+  · exact ⟨by decide, by decide⟩
+  · trivial
+  · exact ⟨by decide, by decide⟩
+
+/-- the model computes: viewgram (segment 0, view 1, TOF -1) of the example layout in the
+    Segment_View_AxialPos_TangPos order is the contiguous run of 9 elements starting at byte 12 + 4·(4·6 + 9) -/
+example : addrsViewgram (exLayout .svat false false) 0 1 (-1) = .ok (block 144 4 9) := by decide
+
 end StirVerif.C02
